@@ -7,7 +7,7 @@
 (*   mut   - every statement reachable from a seed statement by MaxMut       *)
 (*           mutations: delete a token, duplicate a token, swap neighbours,  *)
 (*           insert a token of Tok, truncate                                  *)
-(*   nest  - seventeen nesting / repetition shapes at depths 10 .. 100 000   *)
+(*   nest  - twenty-one nesting / repetition shapes at depths 10 .. 100 000   *)
 (* The specification contributes the input model and the outcome alphabet    *)
 (* (TraceArith: ok or error, nothing else); it says nothing about WHICH      *)
 (* inputs are statements.                                                     *)
@@ -42,7 +42,10 @@ RECURSIVE MutN(_,_)
 MutN(S, n) == IF n = 0 THEN S ELSE MutN(S \cup UNION { Muts(s) : s \in S }, n - 1)
 RECURSIVE SeqsUpTo(_)
 SeqsUpTo(n) == IF n = 0 THEN { <<>> } ELSE LET P == SeqsUpTo(n - 1) IN P \cup { Append(s, t) : s \in { p \in P : Len(p) = n - 1 }, t \in Tok }
-Shapes == {"paren", "neg", "not", "case", "subq", "scalar", "func", "and", "plus", "inlist", "cols", "join", "union", "open", "quote", "ident", "digits"}
+Shapes == {"paren", "neg", "not", "case", "subq", "scalar", "func", "and", "plus", "inlist", "cols", "join", "union", "open", "quote", "ident", "digits",
+           \* a prefix operator behind a binary one, a chain of INTERVAL keywords, and the two kinds of nesting ALTERNATING
+           \* (subqueries wrapped in parentheses: a bound per kind multiplies, a shared bound adds)
+           "notplus", "interval", "subqparen", "castnest"}
 Depths == {10, 100, 1000, 10000, 100000}
 Inputs == CASE Mode = "small" -> { [a |-> "parse", toks |-> s] : s \in SeqsUpTo(MaxLen) }
             [] Mode = "mut"   -> { [a |-> "parse", toks |-> s] : s \in MutN(Seeds, MaxMut) }
